@@ -99,6 +99,29 @@ Section Lemmas.
     f_equal. f_equal. apply column_ext; [exact Hwf|]. intros d' _ Hin. apply H, Hin.
   Qed.
 
+  Lemma map_dim_size_same d m f (t : tensor A) : dhas d (dims t) = true ->
+    size d (map_dim dflt d d m f t) = m.
+  Proof. intros H. unfold size, map_dim. simpl. apply dsize_dreplace_same, H. Qed.
+
+  Lemma map_dim_has d0 d m f (t : tensor A) :
+    dhas d0 (dims (map_dim dflt d d m f t)) = dhas d0 (dims t).
+  Proof. unfold map_dim. simpl. apply dhas_dreplace_same. Qed.
+
+  (* the column of a column-wise mapped array is the mapped column *)
+  Lemma column_map_dim d m f (t : tensor A) e : wf t -> dhas d (dims t) = true ->
+    List.length (f (column t d e)) = m ->
+    column (map_dim dflt d d m f t) d e = f (column t d e).
+  Proof.
+    intros Hwf Hd Hlen.
+    assert (Hcol : forall i, column t d (upd e d i) = column t d e).
+    { intros i. apply column_ext; [exact Hwf|]. intros d' Hne _. apply upd_other, Hne. }
+    apply nth_ext with (d := dflt) (d' := dflt).
+    - rewrite column_length, map_dim_size_same by exact Hd. symmetry. exact Hlen.
+    - intros k Hk. rewrite column_length, map_dim_size_same in Hk by exact Hd.
+      rewrite column_nth by (rewrite map_dim_size_same by exact Hd; exact Hk).
+      unfold map_dim. simpl. rewrite upd_same, Hcol. reflexivity.
+  Qed.
+
   Lemma wf_of_list ds vals : wf (of_list dflt ds vals).
   Proof.
     intros e e' H. simpl in *. f_equal.
